@@ -257,7 +257,20 @@ def check_shims(ck, binary, tar_path, tmp, tag):
             ck.hit("shim_lz4_checked")
             raw_out = pathlib.Path(tmp) / f"{tag}-{p.name}.raw"
             rc, out, err = run_h(binary, "lz4", p, raw_out)
-            ref = lz4.frame.decompress(p.read_bytes())
+            blob = p.read_bytes()
+            ref, nread = lz4.frame.decompress(blob, return_bytes_read=True)
+            if nread < len(blob):
+                # bytes after the first complete frame: python-lz4 stops there, a reader of the LZ4 *frame format*
+                # (frames may be concatenated; lz4_flex's FrameDecoder + read_to_end, which dekoder uses) goes on and
+                # must take them for another frame. Not a harness problem: the archive itself is malformed.
+                ck.case((tag, "lz4-trailing", p.name), nontrivial=True, sample=dict(member=p.name, frame_bytes=nread, file_bytes=len(blob)))
+                ck.violation(
+                    "C54/lz4/trailing-bytes-after-frame",
+                    f"{tag}: operators/{p.name} holds {len(blob) - nread} bytes after its first complete LZ4 frame; the Python reader ignores them, a frame-format reader (the Rust one) reads on: {out.strip()[:120]}",
+                    dict(tag=tag, member=p.name, frame_bytes=nread, file_bytes=len(blob), rust_shim_rc=rc, rust_shim_out=out[:200]),
+                )
+                problems.insert(0, "__violation__")
+                continue
             if rc != 0 or not raw_out.exists() or raw_out.read_bytes() != ref:
                 problems.append(f"lz4 shim: {p.name}: {out} {err[-200:]}")
                 continue
@@ -418,6 +431,8 @@ def _run(ck, tmp, n_arch):
             wd = os.path.join(tmp, f"w-{tag}")
             os.makedirs(wd)
             problems = check_shims(ck, binary, p, wd, tag)
+            if problems and problems[0] == "__violation__":
+                continue  # judged inside check_shims (malformed member)
             if problems:
                 ck.case((tag, "shim"), nontrivial=False)
                 ck.inconclusive(f"shim check failed on {tag}: {problems[0][:250]}")
